@@ -125,6 +125,7 @@ class Inliner:
         self.raises_ok = raises_ok  # None: exceptions are outcomes handed to the caller
         self.shared = list(shared)  # ghost globals of the caller visible to (and written back from) inlined bodies
         self.engine_cls = pyvc.Engine
+        self.contract_kw = {}  # extra Contract fields for inlined bodies (e.g. bv_checked, strings)
 
     # ---- call models shared by every inlined body
     def call_models(self, owner: Optional[str], self_rec: Optional[SRecord]):
@@ -171,6 +172,7 @@ class Inliner:
             calls=self.call_models(owner, self_rec),
             consts=self.consts(),
             raises={'*': True},
+            **self.contract_kw,
         )
         eng = self.engine_cls(self.ctx, c)
         outs = []
